@@ -409,7 +409,7 @@ def copy_bn_stats(pit, exported):
             mask = layer.features_mask.bool()
             src = layer.bn
             with torch.no_grad():
-                mod.eps = src.eps
+                # eps / momentum / affine are hyper-parameters that export itself must carry over: only statistics and affine values are copied
                 mod.running_mean.copy_(src.running_mean[mask])
                 mod.running_var.copy_(src.running_var[mask])
                 if src.affine:
@@ -601,3 +601,74 @@ class H1(nn.Module):
 FAMILIES.update({'F1': F1, 'Q1': Q1, 'W1': W1, 'X1': X1, 'K3': K3, 'H1': H1})
 _SHAPES = {'F1': lambda s: (s.get('cin', 1), s.get('T', 2)), 'Q1': lambda s: (s.get('cin', 1), 1),
            'W1': lambda s: (s.get('cin', 1), 2) if s.get('nd', 1) == 1 else (s.get('cin', 1), 2, 2), 'X1': lambda s: (s.get('cin', 1), 2), 'K3': lambda s: (s.get('cin', 1), 2), 'H1': lambda s: (s.get('cin', 1), s.get('T', 2))}
+
+
+class O1(nn.Module):
+    """several heads on a common searchable trunk; the network returns them as a flat tuple, a nested tuple or a dict
+    (every returned tensor fixes the width of the layer that produces it)"""
+
+    def __init__(self, C=2, cin=1, out='dict'):
+        super().__init__()
+        self.out = out
+        self.c0 = nn.Conv1d(cin, C, 1)
+        self.ha = nn.Conv1d(C, 2, 1)
+        self.hb = nn.Conv1d(C, 3, 1)
+        self.hc = nn.Conv1d(C, 2, 1)
+
+    def forward(self, x):
+        h = torch.relu(self.c0(x))
+        a, b, c = self.ha(h), self.hb(h), self.hc(h)
+        if self.out == 'dict':
+            return {'a': a, 'b': b, 'c': c}
+        if self.out == 'nested':
+            return a, (b, c)
+        if self.out == 'list':
+            return [a, b, c]
+        return a, b, c
+
+
+class W2(nn.Module):
+    """conv a -> relu -> grouped conv `b` with a channel multiplier (C -> m*C, groups=C; not searchable, excluded by name) -> relu -> conv c -> out
+    `b` is not a depthwise convolution: it defines m*C new features"""
+
+    def __init__(self, C=2, cin=1, mult=2, nd=1):
+        super().__init__()
+        conv = nn.Conv1d if nd == 1 else nn.Conv2d
+        self.a = conv(cin, C, 1)
+        self.b = conv(C, mult * C, 1, groups=C)
+        self.c = conv(mult * C, C, 1)
+        self.o = conv(C, 2, 1)
+
+    def forward(self, x):
+        return self.o(torch.relu(self.c(torch.relu(self.b(torch.relu(self.a(x)))))))
+
+
+FAMILIES.update({'O1': O1, 'W2': W2})
+_SHAPES.update({'O1': lambda s: (s.get('cin', 1), 2), 'W2': lambda s: (s.get('cin', 1), 2) if s.get('nd', 1) == 1 else (s.get('cin', 1), 2, 2)})
+
+
+def flat_outputs(y):
+    """the tensors of a (possibly nested) network output, in a deterministic order"""
+    if isinstance(y, dict):
+        out = []
+        for k in sorted(y):
+            out += flat_outputs(y[k])
+        return out
+    if isinstance(y, (tuple, list)):
+        out = []
+        for v in y:
+            out += flat_outputs(v)
+        return out
+    return [y]
+
+
+def out_shapes(y):
+    return [tuple(t.shape) for t in flat_outputs(y)]
+
+
+def flat_cat(y):
+    """one 1-D tensor with every element of every returned tensor"""
+    ts = flat_outputs(y)
+    if len(ts) == 1:
+        return ts[0]
+    return torch.cat([t.reshape(-1) for t in ts])
